@@ -13,7 +13,7 @@ TRUSTED = [
     "the unfold loop (ICal.unfold, shared with C17) and RDATE/EXDATE/DTSTART parameters are in the model and the correspondence but no theorem is stated about them; multi_line_builds_set is for parameter-less lines joined by newlines without unfold",
 ]
 ASSUMPTIONS = [
-    "the theorems str_roundtrip* / str_roundtrip_rule are about calendar.firstweekday() == 0 (the interpreter's default); str_roundtrip_rule_ambient states the ambient value explicitly; the oracle and the correspondence also run under setfirstweekday(0..6)",
+    "the theorems str_roundtrip* / str_roundtrip_rule are about calendar.firstweekday() == 0 (the interpreter's default); str_roundtrip_rule_ambient states the ambient value explicitly (every k, no hypothesis on the week start since the repair of D-C13-ambient-wkst) and str_roundtrip_rule_cross_ambient a different first weekday on the reading side; the oracle and the correspondence also run under setfirstweekday(0..6)",
     "texts in the correspondence are ASCII (str.upper/split/splitlines/int are modelled for ASCII)",
     "aware dtstart through str() is excluded by the property itself (upstream xfail)",
 ]
@@ -119,14 +119,19 @@ def six(dt):
 def olist(v):
     return "-" if v is None else ilist(v)
 
-def str_request(r):
+def str_request(r, fwd=None):
+    """the model's `__str__` inputs: the rule's attributes and `calendar.firstweekday()` as it is when str(r) is taken
+    (call this next to the str(r) it is compared with, under the same ambient value)"""
+    import calendar
+    if fwd is None:
+        fwd = calendar.firstweekday()
     o = r._original_rule
     wd = o.get("byweekday")
     wds = "-" if wd is None else "[" + ",".join("%d/%s" % (w.weekday, "-" if w.n is None else w.n) for w in wd) + "]"
-    return "rrs.str %s %d %d %d %s %s %s %s %s %s %s %s %s %s %s %s" % (
+    return "rrs.str %s %d %d %d %s %s %s %s %s %s %s %s %s %s %s %s %d" % (
         six(r._dtstart), r._freq, r._interval, r._wkst, "-" if r._count is None else r._count, six(r._until),
         olist(o.get("bysetpos")), olist(o.get("bymonth")), olist(o.get("bymonthday")), olist(o.get("byyearday")),
-        olist(o.get("byeaster")), olist(o.get("byweekno")), wds, olist(o.get("byhour")), olist(o.get("byminute")), olist(o.get("bysecond")))
+        olist(o.get("byeaster")), olist(o.get("byweekno")), wds, olist(o.get("byhour")), olist(o.get("byminute")), olist(o.get("bysecond")), fwd)
 
 # every datetime that came out of a `parser.parse` call made by rrulestr, with the options that call was given
 PO = {}            # id(result) -> (ignoretz, tzinfos-is-the-object-passed)
@@ -987,25 +992,38 @@ def oracle_ambient(ctx):
             except Exception as ex:
                 ctx.violation("under calendar.setfirstweekday(%d) rrulestr(str(rule)) raised %s" % (k, exc_kind(ex)), case, repr(ex)); continue
             if got != base:
-                # D-C13-ambient-wkst is claimed only with: model = implementation for str() and the parse of that text, and the
-                # reparsed occurrences being those of the same arguments with wkst = the ambient value
-                try:
-                    with relaxed():
-                        res, _ = impl_parse(s)
-                        m = ctx.driver([str_request(r), "rrs.parse 0000000 %s" % hexs(s)])
-                        case["model_agrees_with_implementation"] = bool(m[0] == "ok " + hexs(s) and canon_impl(res, m[1]) == m[1])
-                        case["explained_by_ambient_week_start"] = bool(head(iter(build(freq, ds, dict(kw, wkst=k)))) == got)
-                except Timeout:
-                    ctx.count("skipped_explanation_timed_out"); continue      # no verdict on this case, not a violation
-                except Exception as ex:
-                    case["model_agrees_with_implementation"] = False; case["matcher_error"] = repr(ex)
+                # regression stream of the repaired D-C13-ambient-wkst (pending_fixes/D-C13-ambient-wkst.diff): __str__ prints WKST
+                # whenever _wkst or calendar.firstweekday() is non-zero, so no ambient value excuses a difference any more
                 ctx.violation("under calendar.setfirstweekday(%d) rrulestr(str(rule)) generates different occurrences" % k, case,
                               {"rule": [d.isoformat() for d in base[:4]], "reparsed": [d.isoformat() for d in got[:4]]})
                 continue
-            # text -> rule under the ambient value: an explicit WKST in the text wins, no WKST means the ambient value
-            for wk_txt, wk in (("", k), (";WKST=MO", 0), (";WKST=SU", 6)):
-                if "WKST=" in s:
+            if (k != 0 or r._wkst != 0) != ("WKST=" in s):
+                ctx.violation("under calendar.setfirstweekday(%d) str(rule) %s WKST for _wkst=%d" % (k, "prints" if "WKST=" in s else "omits", r._wkst),
+                              dict(case, kind="ambient-wkst-part"), None)
+                continue
+            if "WKST=" in s and k != 0:
+                # a text that carries WKST means the same rule under every reader's first weekday (str_roundtrip_rule_cross_ambient)
+                k2 = rng.choice([x for x in range(7) if x != k])
+                calendar.setfirstweekday(k2)
+                try:
+                    with warnings.catch_warnings():
+                        warnings.simplefilter("ignore")
+                        got2 = head(iter(R.rrulestr(s)))
+                except Timeout:
+                    got2 = base
+                except Exception as ex:
+                    got2 = repr(ex)
+                finally:
+                    calendar.setfirstweekday(k)
+                ctx.case((s, k, k2, "ambient-cross"))
+                if got2 != base:
+                    ctx.violation("text written under setfirstweekday(%d) and read under setfirstweekday(%d) generates different occurrences" % (k, k2),
+                                  dict(case, kind="ambient-cross", reader_firstweekday=k2), None)
                     continue
+            # text -> rule under the ambient value: an explicit WKST in the text wins, no WKST means the ambient value
+            import re as _re
+            s_full, s = s, _re.sub(r";WKST=[A-Z][A-Z]", "", s)       # the text without its WKST part (printed under k != 0 since the repair)
+            for wk_txt, wk in (("", k), (";WKST=MO", 0), (";WKST=SU", 6)):
                 try:
                     want = head(iter(build(freq, ds, dict(kw, wkst=wk))))
                     with warnings.catch_warnings():
@@ -1233,15 +1251,29 @@ def empty_by_list(case):
             and case.get("model_agrees_with_implementation") is True
             and case.get("explained_by_default_of_dropped_part") is True)
 
-def ambient_wkst(case):
-    """D-C13-ambient-wkst, tight: ambient first weekday != 0, the rule's own week start is Monday (so WKST is not printed),
-    the model reproduces the implementation's str() and parse on this rule, and the reparsed occurrences are those of the same
-    arguments with wkst = the ambient value"""
-    return (case.get("kind") == "ambient" and case.get("ambient_firstweekday") not in (0, None) and case.get("rule_wkst") == 0
-            and case.get("model_agrees_with_implementation") is True and case.get("explained_by_ambient_week_start") is True)
+KNOWN = {"D-C13-empty-by-list": lambda v: empty_by_list(v["case"])}
 
-KNOWN = {"D-C13-empty-by-list": lambda v: empty_by_list(v["case"]),
-         "D-C13-ambient-wkst": lambda v: ambient_wkst(v["case"])}
+def replay_ambient(case):
+    """an ambient-first-weekday case re-evaluated on the current tree"""
+    import calendar
+    from dateutil import rrule as R
+    ns = dict(vars(R)); ns["datetime"] = datetime
+    kw = eval(case["kwargs"], ns)
+    ds = datetime.datetime.fromisoformat(case["dtstart"])
+    saved = calendar.firstweekday()
+    try:
+        k = case["ambient_firstweekday"]
+        calendar.setfirstweekday(k)
+        r = R.rrule(case["freq"], dtstart=ds, **kw)
+        base = list(itertools.islice(r, 10)); s = str(r)
+        calendar.setfirstweekday(case.get("reader_firstweekday", k))
+        got = list(itertools.islice(R.rrulestr(s), 10))
+        ok = got == base and ((k != 0 or r._wkst != 0) == ("WKST=" in s))
+        if not ok:
+            print("still failing under setfirstweekday(%d):" % k, repr(s), [d.isoformat() for d in base[:4]], "->", [d.isoformat() for d in got[:4]])
+        return ok
+    finally:
+        calendar.setfirstweekday(saved)
 
 def replay(ctx, payload):
     """re-evaluate the recorded failing case on the current tree (option cases are rebuilt from the recorded rule,
@@ -1249,6 +1281,8 @@ def replay(ctx, payload):
     import json, random
     v = payload["violation"]; case = v["case"]
     print(v["what"]); print(json.dumps(case, default=str)[:1500])
+    if case.get("kind") in ("ambient", "ambient-cross", "ambient-wkst-part"):
+        return replay_ambient(case)
     if case.get("kind") != "options":
         return False
     from dateutil import rrule as R
